@@ -40,6 +40,22 @@ deferred_fn deferred_function(int slot) {
         std::make_integer_sequence<int, MAXCLS * 8>())[slot];
 }
 
+std::optional<vf::Property>
+lookup_property(const std::string& id, const std::string& variant) {
+    static const std::map<
+        std::string, vf::Property (*)(const std::string&)>
+        table = {
+            {"C01", &prop_C01}, {"C02", &prop_C02}, {"C03", &prop_C03},
+            {"C04", &prop_C04}, {"C06", &prop_C06}, {"C07", &prop_C07}, {"C08", &prop_C08}, {"C10", &prop_C10}, {"C15", &prop_C15},
+            {"C17", &prop_C17},
+        };
+    auto it = table.find(id);
+    if (it == table.end()) {
+        return std::nullopt;
+    }
+    return it->second(variant);
+}
+
 } // namespace e1
 
 int main(int argc, char** argv) {
@@ -60,5 +76,9 @@ int main(int argc, char** argv) {
             }
         }
     }
-    return vf::worker_main(argc, argv, &e1::lookup_property);
+    int rc = vf::worker_main(argc, argv, &e1::lookup_property);
+    // the pool's static method objects were detached from their catalogs:
+    // their destructors must not run
+    fflush(nullptr);
+    _exit(rc);
 }
